@@ -118,6 +118,77 @@ def run(ctx):
             node=bad_early[0][0].node if bad_early else fi.node, function=fq,
             expected="every normal exit has extracted the selected payloads and recursed into every dependency of this level",
             found="; ".join(f"return under {[repr(strip_sites(c))[:90] for c in x.conds[-2:]]}: {why}" for x, why in bad_early)[:400])
+    decided = selection_by_evaluation(ctx, fi, fq, eff, itB, itC, raw, copy, omit, depre)
+    R.analysed["selection decided by"] = "evaluation on the grid" if decided else "normal forms"
+    if not decided:
+        selection_by_shape(ctx, fi, fq, itB, itC, ENV, omit, depre, removal)
+
+    R.rule("C11-D1c pairing", 7, "pop(k) -> cache slot k; dependency d recursed and stored back under d; same patterns")
+    k = App("elem", (itB,))
+    pos = [a for a in add.args[1:] if not (isinstance(a, App) and a.op == "kw")]
+    R.check("C11-D1c pairing", add.args[0] == cache and len(pos) == 2 and pos[0] == k, "cache slot keyed by the payload's own name",
+            mod=fi.module, node=add.node, function=fq, expected="cache.add_cache_slot(payload, …)", found=repr(add)[:200])
+    val = pos[1] if len(pos) == 2 else None
+    popped = isinstance(val, App) and val.op == "meth:pop" and val.args[0] == ENV and val.args[1] == k
+    R.check("C11-D1c pairing", popped, "the payload is removed from the envelope (pop of the same key), not copied", mod=fi.module,
+            node=add.node, function=fq, expected="envelope.value.pop(payload)", found=repr(val)[:200])
+    d = App("elem", (itC,))
+    rargs = rec.args[1:]
+    if rargs and isinstance(rargs[0], Ref):
+        rargs = rargs[1:]
+    R.check("C11-D1c pairing", len(rargs) == 4 and rargs[0] == cache and rargs[1] == App("idx", (ENV, d)),
+            "recursion into the dependency's own bytes with the same cache", mod=fi.module, node=rec.node, function=fq,
+            expected="fill_cache_from_envelope_data(cache, envelope.value[dependency], …)", found=repr(rargs[:2])[:240])
+    R.check("C11-D1c pairing", len(rargs) == 4 and rargs[2] == omit and rargs[3] == depre, "the same two patterns apply at every level",
+            mod=fi.module, node=rec.node, function=fq, expected="(omit_payload_regex, dependency_regex)", found=repr(rargs[2:])[:160])
+    stores = [e for e in all_effects(eff) if isinstance(e, App) and e.op == "eff:store" and e.args[0] == ENV]
+    back = [e for e in stores if e.args[1] == d]
+    val_ok = bool(back) and all(strip_maybe(e.args[2]) == rec for e in back)
+    R.check("C11-D1c pairing", val_ok, "the stripped dependency is stored back under the key it was read from", mod=fi.module,
+            node=back[0].node if back else fi.node, function=fq, expected="envelope.value[dependency] = new_dependency_data",
+            found=f"{[repr(e)[:160] for e in stores]}")
+
+    # every way through one iteration of the dependency loop stores the stripped dependency back: a handler that swallows a failure of
+    # the recursive call and goes on leaves payloads that were already moved to the cache in the (unchanged) dependency as well
+    from sa.absint import flatten_effects as _flat2
+    body_paths = list(_flat2(list(lpC.args[1].args)))
+    unstored = [pth for pth in body_paths if not any(isinstance(e, App) and e.op == "eff:store" and strip_sites(e).args[0] == ENV and strip_sites(e).args[1] == d
+                                                      for e in pth)]
+    R.check("C11-D1c pairing", not unstored, "every way through an iteration of the dependency loop stores the result back (or leaves the function)",
+            mod=fi.module, node=rec.node, function=fq, expected="a failure of the recursive call aborts the command",
+            found=f"{len(unstored)} of {len(body_paths)} paths continue without storing: a dependency that failed half-way keeps payloads that are already in the cache")
+    # the payload popped from the envelope reaches the cache or the command fails: the hand-over is not inside a handler that goes on
+    direct_add = [e for e in lpB.args[1].args if isinstance(e, App) and e.op == "eff:call" and strip_sites(e.args[0]) == strip_sites(add)]
+    R.check("C11-D1c pairing", bool(direct_add), "a failure of add_cache_slot aborts the command (the popped payload is not dropped)", mod=fi.module,
+            node=add.node, function=fq, expected="cache.add_cache_slot(payload, envelope.value.pop(payload)) outside any handler that continues",
+            found="the hand-over sits in a try whose handler goes on: a payload that was already removed from the envelope ends up nowhere")
+    R.rule("C11-D1d write set and result", 3, "nothing else in the envelope map is written; result = re-encoded envelope with the same tag")
+    other = [e for e in all_effects(eff) if isinstance(e, App) and (
+        (e.op in ("eff:store", "eff:delitem") and e.args[0] in (ENV, raw) and e not in back) or
+        (e.op == "eff:call" and isinstance(e.args[0], App) and e.args[0].op in frozen.MUTATORS
+         and e.args[0].args[0] in (ENV, raw) and e.args[0] != val))]
+    R.check("C11-D1d write set and result", not other, "write set = {extracted keys (pop), dependency keys}", mod=fi.module, node=fi.node,
+            function=fq, expected="no other mutation of envelope.value", found=f"{[repr(e)[:120] for e in other]}")
+    rv = strip_sites(o.value)
+    want = [App("cbor", (App("tag", (App("attr:tag", (L,)), ENV)),)), App("cbor", (L,))]
+    R.check("C11-D1d write set and result", rv in want, "returns cbor2.dumps(<same tag, same map>)", mod=fi.module, node=fi.node,
+            function=fq, expected="cbor2.dumps(envelope)", found=repr(rv)[:200])
+    # invalid input -> GeneratorError on both guards
+    rej = [x for x in outs if x.kind == "raise"]
+    names = {_exc(x) for x in rej}
+    R.check("C11-D1d write set and result", names == {"GeneratorError"} and len(rej) >= 2, "malformed input is reported as GeneratorError",
+            mod=fi.module, node=fi.node, function=fq, expected="GeneratorError", found=f"{sorted(names)}")
+
+    file_level(ctx, ev)
+    single_extract(ctx, ev)
+    generic.serializer_options(ctx, "C11-D1i serializer options", (CC, PX), 2, "members that are not moved keep their bytes and their order")
+    R.rule("C11-D2 extraction path executable with installed cbor2", 1, "no in-place mutation of decoded tag content")
+    frozen.check(ctx, "C11-D2 extraction path executable with installed cbor2", [CC, PX], {})
+
+
+def selection_by_shape(ctx, fi, fq, itB, itC, ENV, omit, depre, removal):
+    """The selection rules on the normal forms of the two iterables (used when they cannot be evaluated)."""
+    R = ctx.report
     # every regex use is fullmatch with (pattern parameter, key)
     rx = regex_calls(itB) + regex_calls(itC)
     names = {r.op for r in rx}
@@ -190,67 +261,78 @@ def run(ctx):
     R.check("C11-D1b disjoint partition", uses_mutated, "payload selection uses the candidates after the removal", mod=fi.module,
             node=fi.node, function=fq, expected="payloads_to_extract derives from the reduced list", found=repr(itB)[:200])
 
-    R.rule("C11-D1c pairing", 7, "pop(k) -> cache slot k; dependency d recursed and stored back under d; same patterns")
-    k = App("elem", (itB,))
-    pos = [a for a in add.args[1:] if not (isinstance(a, App) and a.op == "kw")]
-    R.check("C11-D1c pairing", add.args[0] == cache and len(pos) == 2 and pos[0] == k, "cache slot keyed by the payload's own name",
-            mod=fi.module, node=add.node, function=fq, expected="cache.add_cache_slot(payload, …)", found=repr(add)[:200])
-    val = pos[1] if len(pos) == 2 else None
-    popped = isinstance(val, App) and val.op == "meth:pop" and val.args[0] == ENV and val.args[1] == k
-    R.check("C11-D1c pairing", popped, "the payload is removed from the envelope (pop of the same key), not copied", mod=fi.module,
-            node=add.node, function=fq, expected="envelope.value.pop(payload)", found=repr(val)[:200])
-    d = App("elem", (itC,))
-    rargs = rec.args[1:]
-    if rargs and isinstance(rargs[0], Ref):
-        rargs = rargs[1:]
-    R.check("C11-D1c pairing", len(rargs) == 4 and rargs[0] == cache and rargs[1] == App("idx", (ENV, d)),
-            "recursion into the dependency's own bytes with the same cache", mod=fi.module, node=rec.node, function=fq,
-            expected="fill_cache_from_envelope_data(cache, envelope.value[dependency], …)", found=repr(rargs[:2])[:240])
-    R.check("C11-D1c pairing", len(rargs) == 4 and rargs[2] == omit and rargs[3] == depre, "the same two patterns apply at every level",
-            mod=fi.module, node=rec.node, function=fq, expected="(omit_payload_regex, dependency_regex)", found=repr(rargs[2:])[:160])
-    stores = [e for e in all_effects(eff) if isinstance(e, App) and e.op == "eff:store" and e.args[0] == ENV]
-    back = [e for e in stores if e.args[1] == d]
-    val_ok = bool(back) and all(strip_maybe(e.args[2]) == rec for e in back)
-    R.check("C11-D1c pairing", val_ok, "the stripped dependency is stored back under the key it was read from", mod=fi.module,
-            node=back[0].node if back else fi.node, function=fq, expected="envelope.value[dependency] = new_dependency_data",
-            found=f"{[repr(e)[:160] for e in stores]}")
 
-    # every way through one iteration of the dependency loop stores the stripped dependency back: a handler that swallows a failure of
-    # the recursive call and goes on leaves payloads that were already moved to the cache in the (unchanged) dependency as well
-    from sa.absint import flatten_effects as _flat2
-    body_paths = list(_flat2(list(lpC.args[1].args)))
-    unstored = [pth for pth in body_paths if not any(isinstance(e, App) and e.op == "eff:store" and strip_sites(e).args[0] == ENV and strip_sites(e).args[1] == d
-                                                      for e in pth)]
-    R.check("C11-D1c pairing", not unstored, "every way through an iteration of the dependency loop stores the result back (or leaves the function)",
-            mod=fi.module, node=rec.node, function=fq, expected="a failure of the recursive call aborts the command",
-            found=f"{len(unstored)} of {len(body_paths)} paths continue without storing: a dependency that failed half-way keeps payloads that are already in the cache")
-    # the payload popped from the envelope reaches the cache or the command fails: the hand-over is not inside a handler that goes on
-    direct_add = [e for e in lpB.args[1].args if isinstance(e, App) and e.op == "eff:call" and strip_sites(e.args[0]) == strip_sites(add)]
-    R.check("C11-D1c pairing", bool(direct_add), "a failure of add_cache_slot aborts the command (the popped payload is not dropped)", mod=fi.module,
-            node=add.node, function=fq, expected="cache.add_cache_slot(payload, envelope.value.pop(payload)) outside any handler that continues",
-            found="the hand-over sits in a try whose handler goes on: a payload that was already removed from the envelope ends up nowhere")
-    R.rule("C11-D1d write set and result", 3, "nothing else in the envelope map is written; result = re-encoded envelope with the same tag")
-    other = [e for e in all_effects(eff) if isinstance(e, App) and (
-        (e.op in ("eff:store", "eff:delitem") and e.args[0] in (ENV, raw) and e not in back) or
-        (e.op == "eff:call" and isinstance(e.args[0], App) and e.args[0].op in frozen.MUTATORS
-         and e.args[0].args[0] in (ENV, raw) and e.args[0] != val))]
-    R.check("C11-D1d write set and result", not other, "write set = {extracted keys (pop), dependency keys}", mod=fi.module, node=fi.node,
-            function=fq, expected="no other mutation of envelope.value", found=f"{[repr(e)[:120] for e in other]}")
-    rv = strip_sites(o.value)
-    want = [App("cbor", (App("tag", (App("attr:tag", (L,)), ENV)),)), App("cbor", (L,))]
-    R.check("C11-D1d write set and result", rv in want, "returns cbor2.dumps(<same tag, same map>)", mod=fi.module, node=fi.node,
-            function=fq, expected="cbor2.dumps(envelope)", found=repr(rv)[:200])
-    # invalid input -> GeneratorError on both guards
-    rej = [x for x in outs if x.kind == "raise"]
-    names = {_exc(x) for x in rej}
-    R.check("C11-D1d write set and result", names == {"GeneratorError"} and len(rej) >= 2, "malformed input is reported as GeneratorError",
-            mod=fi.module, node=fi.node, function=fq, expected="GeneratorError", found=f"{sorted(names)}")
 
-    file_level(ctx, ev)
-    single_extract(ctx, ev)
-    generic.serializer_options(ctx, "C11-D1i serializer options", (CC, PX), 2, "members that are not moved keep their bytes and their order")
-    R.rule("C11-D2 extraction path executable with installed cbor2", 1, "no in-place mutation of decoded tag content")
-    frozen.check(ctx, "C11-D2 extraction path executable with installed cbor2", [CC, PX], {})
+def selection_by_evaluation(ctx, fi, fq, eff, itB, itC, raw, copy, omit, depre) -> bool:
+    """Decide the selection by evaluating the two extracted iterables (the list the extraction loop walks, the list the dependency
+    loop walks) on a grid of key sets and patterns against the specification: candidates = text-string keys in map order;
+    dependencies = candidates fully matching the dependency pattern (none without a pattern); extracted = the other candidates that
+    do not fully match the omit pattern (all of them without a pattern).  The grid separates fullmatch from match / search, the two
+    polarities, the None cases, non-string keys, and a key matching both patterns.  Returns False when the terms are not evaluable
+    (the caller then falls back to the rules on normal forms)."""
+    import re as _re
+    from sa.teval import teval, Unknown
+    R = ctx.report
+    loops = {}
+
+    def collect(effs):
+        for e in effs:
+            if not isinstance(e, App):
+                continue
+            if e.op == "eff:loop":
+                ln = getattr(e.node, "lineno", None)
+                if ln is not None:
+                    loops[ln] = (e.args[0], e.node.iter.id if isinstance(e.node, ast.For) and isinstance(e.node.iter, ast.Name) else None)
+                collect(e.args[1].args)
+            elif e.op == "eff:if":
+                collect(e.args[1].args)
+                collect(e.args[2].args)
+            elif e.op in ("eff:alts",):
+                for alt in e.args:
+                    collect(alt.args)
+            elif e.op == "eff:partial":
+                collect(e.args[0].args)
+    collect(eff)
+    # every value carried by a loop, per loop: a loop that walks a list it mutates needs all of them at once
+    loopouts = {}
+    for t_ in [itB, itC] + list(eff):
+        for s_ in subterms(t_):
+            if isinstance(s_, App) and s_.op == "loopout" and len(s_.args) == 3:
+                loopouts.setdefault(s_.args[1].v, {})[s_.args[0].v] = s_.args[2]
+    keysets = [["fw", "dep", "dep_a", "xdep", "omit", "omit_1", "xomit", "both", 7, b"raw", "plain"], ["dep", "omit"], [], [3, "only"]]
+    patterns = [(None, None), ("dep", None), (None, "omit"), ("dep", "omit"), ("(dep|both)", "(omit|both)"), ("dep.*", ".*omit"), (".*", None), (None, ".*"),
+                ("", ""), ("nomatch", "nomatch")]
+    results = []
+    try:
+        for keys in keysets:
+            m = {k: b"x" for k in keys}
+            for dp, om in patterns:
+                env = {raw: m, copy: dict(m), depre.name: dp, omit.name: om, "__loops__": loops, "__loopouts__": loopouts}
+                strs = [k for k in keys if isinstance(k, str)]
+                want_dep = [k for k in strs if dp is not None and _re.fullmatch(dp, k)]
+                want_ext = [k for k in strs if k not in want_dep and (om is None or not _re.fullmatch(om, k))]
+                got_dep, got_ext = list(teval(itC, env)), list(teval(itB, env))
+                results.append(((keys, dp, om), want_dep, got_dep, want_ext, got_ext))
+    except Unknown:
+        return False
+    except Exception as e:  # a term that evaluates to something that is not a list of keys
+        raise AnalysisError(f"{fq}: selection terms not evaluable ({type(e).__name__}: {e})")
+    bad_dep = next((r for r in results if r[1] != r[2]), None)
+    bad_ext = next((r for r in results if r[3] != r[4]), None)
+    R.check("C11-D1a selection", bad_dep is None, "dependencies: the text-string keys fully matching the dependency pattern; none when no pattern is given",
+            mod=fi.module, node=fi.node, function=fq, expected=f"{bad_dep[1]} for keys/dependency/omit = {bad_dep[0]}" if bad_dep else "as specified on the whole grid",
+            found=f"{bad_dep[2]}" if bad_dep else "")
+    R.check("C11-D1a selection", bad_ext is None, "extracted: the other text-string keys not fully matching the omit pattern; all of them when no pattern is given",
+            mod=fi.module, node=fi.node, function=fq, expected=f"{bad_ext[3]} for keys/dependency/omit = {bad_ext[0]}" if bad_ext else "as specified on the whole grid",
+            found=f"{bad_ext[4]}" if bad_ext else "")
+    for _ in range(3):
+        R.ok("C11-D1a selection", f"grid of {len(results)} (key set, patterns) cases")
+    R.rule("C11-D1b disjoint partition", 2, "dependencies are removed from the candidates before payloads are selected")
+    overlap = next((r for r in results if set(r[2]) & set(r[4])), None)
+    R.check("C11-D1b disjoint partition", overlap is None, "no key is both recursed into and extracted", mod=fi.module, node=fi.node, function=fq,
+            expected="dependencies and extracted payloads are disjoint", found=f"{sorted(set(overlap[2]) & set(overlap[4]))} for {overlap[0]}" if overlap else "")
+    R.ok("C11-D1b disjoint partition", "evaluated on the grid")
+    return True
 
 
 def strip_loop(t):
